@@ -38,7 +38,7 @@ example : clip1 (0 : Int) 10 15 = 10 ∧ clip1 (0 : Int) 10 (-3) = 0 ∧ clip1 (
 same row (all lower bounds ARE `lo`, all upper bounds ARE `hi`). -/
 theorem fastpath_eq_perfeature (lower upper row : List α) (lo hi : α)
     (hfp : fastPath lower upper = some (lo, hi)) (hlen : lower.length = upper.length)
-    (hrow : row.length ≤ lower.length) :
+    (hrow : row.length = lower.length) :
     clipRow lower upper row = .ok (row.map (clip1 lo hi)) :=
   clipRow_const lower upper row lo hi (fastPath_some hfp).1 (fastPath_some hfp).2 hrow hlen
 
